@@ -46,6 +46,7 @@ def check(ctx, F):
     check_definite_init(ctx, F)
     check_statics(ctx, F)
     check_copy_complete(ctx, F)
+    check_copy_body(ctx, F)
     check_rebind(ctx, F)
     check_output_defined(ctx, F)
     check_sequenced(ctx, F)
@@ -399,6 +400,93 @@ def check_copy_complete(ctx, F):
                 if bt not in gotb:
                     ctx.violation("C10.copy-complete", site + "/base", "%s (%s)" % (site, F.floc(c["f"])),
                                   "the %s constructor of %s does not copy its base %s" % (kind, name, F.tname(bt, 0)), {})
+
+
+def this_writes(F, fid, seen=None):
+    """fields of *this that `fid` may write, transitively through calls on this / on members (syntactic, may-analysis)"""
+    seen = seen if seen is not None else set()
+    if fid in seen:
+        return set()
+    seen.add(fid)
+    b = F.body(fid)
+    if b is None:
+        return set()
+
+    def root_field(e):
+        """outermost member of *this on the access path of e, or None"""
+        e = strip(e)
+        f = None
+        while isinstance(e, dict):
+            k = e.get("k")
+            if k == "mem":
+                base = strip(e.get("b") or {})
+                if base.get("k") == "this" or (base.get("k") == "cast" and strip(base.get("e") or {}).get("k") == "this"):
+                    return e.get("n")
+                e = base
+            elif k in ("idx",):
+                e = strip(e.get("b") or {})
+            elif k == "call" and e.get("op") == "[]":
+                e = strip(e.get("obj") or (e.get("a") or [{}])[0])
+            elif k == "cast" or k == "paren":
+                e = strip(e.get("e") or {})
+            elif k == "un" and e.get("op") == "*":
+                e = strip(e.get("e") or {})
+            else:
+                return f
+        return f
+
+    w = set()
+    for x in walk(b.get("body") or {}):
+        k = x.get("k")
+        if k == "asg":
+            f = root_field(x.get("lhs"))
+            if f:
+                w.add(f)
+        elif k == "un" and x.get("op") in ("++", "--"):
+            f = root_field(x.get("e"))
+            if f:
+                w.add(f)
+        elif k == "call" and "f" in x:
+            cf = F.fn(x["f"])
+            o = strip(x.get("obj") or {})
+            on_this = o.get("k") == "this" or (o.get("k") == "cast" and strip(o.get("e") or {}).get("k") == "this")
+            if on_this or (x.get("obj") is None and cf.get("cls") == b.get("cls") and not cf.get("static")):
+                w |= this_writes(F, x["f"], seen)
+            elif x.get("obj") is not None and not cf.get("const") and cf.get("kind") != "ctor":
+                f = root_field(x.get("obj"))
+                if f and cf["name"] not in ("operator[]", "begin", "end", "get", "count"):
+                    w.add(f)
+            if x.get("op") in ("=", "|=", "&=", "^=", "+=", "-=") and x.get("a"):
+                f = root_field(x["a"][0])
+                if f:
+                    w.add(f)
+    return w
+
+
+def check_copy_body(ctx, F):
+    """a user-provided copy / move constructor leaves what its initialisers copied alone: its body (and whatever it calls on *this) writes no member,
+    except members of pointer type (re-binding a self reference) - otherwise the copy no longer answers or continues as the original would"""
+    done = set()
+    for t in F.types:
+        if not t.get("complete") or not t.get("inroots") or t.get("dependent"):
+            continue
+        for c in t.get("ctors", []):
+            if not (c.get("copy") or c.get("move")) or not c.get("user"):
+                continue
+            b = F.body(c["f"])
+            if b is None or not b.get("inst"):
+                continue
+            name = t.get("tmpl") or t["name"]
+            kind = "copy" if c.get("copy") else "move"
+            key = (name, F.spec(t["id"]) if hasattr(F, "spec") else "", kind)
+            site = "%s::%s(%s)/body" % (name, name, kind)
+            w = this_writes(F, c["f"])
+            ctx.instance("C10.copy-complete", site, {"record": name, "loc": F.floc(c["f"]), "members_written_by_the_body": sorted(w)})
+            if w and key not in done:
+                done.add(key)
+                ctx.violation("C10.copy-complete", site, "%s (%s)" % (site, F.floc(c["f"])),
+                              "the body of the %s constructor of %s (or a member it calls) writes %s after the initialisers copied them: the copy does not "
+                              "start out as the original is" % (kind, name, ", ".join("`%s`" % f for f in sorted(w))), {})
 
 
 def check_rebind(ctx, F):
